@@ -10,7 +10,8 @@ fixes="| commit | property | what failed (found by) |\n|---|---|---|\n"
 for f in fx:
     w=f['what'].split(' ',3)[3] if f['what'].startswith('fixed:') else f['what']
     fixes+=f"| `{f['commit']}` | {f['property']} | {w} (`{f['harness']}` / `{f['label']}`) |\n"
-fixes+=f"\n{len(fx)} repairs. Each was first reported by the named harness, replayed on the real build, repaired, and the harness now passes; the entries stay in `known_findings.json` as `fixed` (they suppress nothing).\n\n"
+ncommits=len({f["commit"] for f in fx})
+fixes+=f"\n{len(fx)} failing inputs recorded, repaired by {ncommits} `fix:` commits (a commit that repairs one defect can close several recorded inputs). Each was first reported by the named harness, replayed on the real build, repaired, and the harness now passes; the entries stay in `known_findings.json` as `fixed` (they suppress nothing).\n\n"
 why={"C08":"repairing the writer means changing the version byte that existing tests assert; verifying Fletcher-32 in the reader with the writer's algorithm would reject reference-library files (their Fletcher-32 differs)",
      "C13":"needs the chunk index to be rebuilt (or chunks released) on shrink — a redesign of Resize",
      "C15":"the block's capacity accounting (prefix and checksum inside the block) is asserted byte-for-byte by existing tests; a repair changes every offset",
